@@ -534,6 +534,56 @@ def run(rep, tier, seed, replay=None):
             if listed != int(kv["emis"]) + int(kv["dmis"]):
                 violation("sweep reports %s + %s failing patterns but lists only %d" % (kv["emis"], kv["dmis"], listed), line, m, no_input=True)
 
+    # ------------------------------------------------------------ multi-subset 2 09 YYY columns, plain and compressed
+    # (library convention for compressed IEEE columns: R0 + NBINC=0 when all values are the same, else R0=0, NBINC=octets and
+    # every value in full).  Oracle: every pattern of the column is read back identically - zero of either sign included.
+    if not replay or replay.get("column_line"):
+        import codec
+        cctx = codec.Ctx()
+        pool = {32: [0, 0x80000000, 1, 0x80000001, 0x007fffff, 0x00800000, 0x3f800000, 0xbf800000, 0x7f800000, 0xff800000, 0x7f7ffffe, 0x42a0c000],
+                64: [0, 0x8000000000000000, 1, 0x8000000000000001, 0x000fffffffffffff, 0x0010000000000000, 0x3ff0000000000000, 0xbff0000000000000,
+                     0x7ff0000000000000, 0xfff0000000000000, 0x7feffffffffffffe, 0x408faa0000000000]}
+        cl = []
+        if replay:
+            cl = [replay["column_line"]]
+        else:
+            for w in (32, 64):
+                tok = ("f%08x" if w == 32 else "d%016x")
+                for _ in range(40 if tier == "quick" else 600):
+                    n = rng.choice([2, 2, 3, 5])
+                    shape = rng.choice(["equal", "zeros", "mixed", "mixed"])
+                    if shape == "equal": col = [rng.choice(pool[w])] * n
+                    elif shape == "zeros": col = [rng.choice(pool[w][:2]) for _ in range(n)]
+                    else: col = [rng.choice(pool[w]) for _ in range(n)]
+                    for comp in (0, 1):
+                        cl.append("E 5 %d 4 1001 %d 12101 209000 %d %s" % (comp, 209000 + w, n, " ".join("r%x %s |" % (k + 1, tok % v) for k, v in enumerate(col))))
+        eo = cctx.run_c(cl)
+        dl, dm = [], []
+        for line, o in zip(cl, eo):
+            h = codec.parse_c_listing(o)[0]
+            if h.get("rc") == "0":
+                dl.append("D " + h["msg"]); dm.append(line)
+            else:
+                violation("a valid multi-subset 2 09 YYY dataset was not encoded (rc=%s)" % h.get("rc"), line[:200], 1, extra={"column_line": line})
+        do = cctx.run_c(dl)
+        if len(eo) < len(cl) or len(do) < len(dl):
+            violation("the library crashed on a multi-subset 2 09 YYY dataset: " + cctx.sanitizer_summary(), (cl[len(eo)] if len(eo) < len(cl) else dl[len(do)])[:200], 1,
+                      extra={"column_line": cl[len(eo)] if len(eo) < len(cl) else dm[len(do)]})
+        for line, o in zip(dm, do):
+            rep.count(("col", line))
+            comp = line.split()[2]
+            bump("column_%s" % ("compressed" if comp == "1" else "plain"))
+            want = [t[1:].lstrip("0") or "0" for t in line.split() if t[0] in "fd" and len(t) in (9, 17)]
+            h, subs = codec.parse_c_listing(o)
+            got = []
+            for its in subs:
+                for e in codec.c_elements(its):
+                    if e["desc"] == 12101:
+                        got.append(str(e["val"])[1:].lstrip("0") or "0")
+            if got != want:
+                violation("a %s message with the 2 09 YYY column [%s] is read back as [%s]: not every value returns with its own bit pattern" % (
+                    "compressed" if comp == "1" else "plain", " ".join(want), " ".join(got)), line[:300], 1, extra={"column_line": line})
+
     if contract_bad and not rep.violations:
         violation("the contract on libm assumed by the theorems (-1 <= (int)(log(x)/log(2)) - floor(log2 x) <= 2, subnormals not above the minimum exponent) "
                   "is not met by this platform's libm: %s" % "; ".join(contract_bad), contract_bad[0].split(" est=")[0].split(" dmin")[0], 0, no_input=True)
